@@ -8,36 +8,42 @@ package evaluator
 // evalFrame: heap classes no evaluation step ever changes for objects that already exist:
 // the AST and tokens, the shape of the scope chain, the evaluator's wiring, and the payload of
 // basic values (basic values are immutable once built: variables change by rebinding only).
-//@ frameset evalFrame = parser., lexer., evaluator.scope.outer, evaluator.scope.values, evaluator.Evaluator.global, evaluator.Evaluator.builtins, evaluator.Evaluator.yielder, evaluator.numVal.V, evaluator.stringVal.V, evaluator.boolVal.V, evaluator.anyVal.T, evaluator.Error, elem:parser.Node, elem:*parser.ConditionalBlock, elem:*parser.Var
+//@ frameset evalFrame = parser., lexer., evaluator.scope.outer, evaluator.scope.values, evaluator.Evaluator.global, evaluator.Evaluator.builtins, evaluator.Evaluator.yielder, evaluator.numVal.V, evaluator.stringVal.V, evaluator.boolVal.V, evaluator.anyVal.T, evaluator.anyVal.V, evaluator.Error, elem:parser.Node, elem:*parser.ConditionalBlock, elem:*parser.Var
 
 //@ typeinv Evaluator: self.scope != nil && self.global != nil
+// *Error reports the wrapped error through Unwrap.
+//@ unwraps Error err
 
 // wf(n): shape of the syntax tree below n as the parser builds it (children present where the
 // grammar requires them). Assumed of every tree handed to the evaluator; its consequences per node
 // kind are the axioms below (assumptions about parser output, not proved here).
 //@ pure wf(n parser.Node) bool
 //@ pure isBuiltinName(name string) bool
-//@ global forall(d, *parser.Decl, wf(parser.Node(d)) ==> d != nil && d.Var != nil && d.Value != nil && wf(d.Value))
+// isExpr(n): n is an expression node (its evaluation yields a language value).
+//@ pure isExpr(n parser.Node) bool
+// storeOK: every value held by a scope, an array or a map is a well-formed language value.
+//@ pure storeOK() bool = forall(t, *scope, forall(k, string, has(t.values, k) ==> okValue(t.values[k]))) && forall(m, *mapVal, forall(k, string, has(m.Pairs, k) ==> okValue(m.Pairs[k])))
+//@ global forall(d, *parser.Decl, wf(parser.Node(d)) ==> d != nil && d.Var != nil && d.Value != nil && wf(d.Value) && isExpr(d.Value))
 //@ global forall(d, *parser.TypedDeclStmt, wf(parser.Node(d)) ==> d != nil && d.Decl != nil && wf(parser.Node(d.Decl)))
 //@ global forall(d, *parser.InferredDeclStmt, wf(parser.Node(d)) ==> d != nil && d.Decl != nil && wf(parser.Node(d.Decl)))
-//@ global forall(a, *parser.AssignmentStmt, wf(parser.Node(a)) ==> a != nil && a.Target != nil && wf(a.Target) && a.Value != nil && wf(a.Value))
-//@ global forall(a, *parser.Any, wf(parser.Node(a)) ==> a != nil && a.Value != nil && wf(a.Value))
-//@ global forall(g, *parser.GroupExpression, wf(parser.Node(g)) ==> g != nil && g.Expr != nil && wf(g.Expr))
-//@ global forall(r, *parser.ReturnStmt, wf(parser.Node(r)) ==> r != nil && (r.Value != nil ==> wf(r.Value)))
+//@ global forall(a, *parser.AssignmentStmt, wf(parser.Node(a)) ==> a != nil && a.Target != nil && wf(a.Target) && a.Value != nil && wf(a.Value) && isExpr(a.Value) && isExpr(a.Target))
+//@ global forall(a, *parser.Any, wf(parser.Node(a)) ==> a != nil && a.Value != nil && wf(a.Value) && isExpr(a.Value))
+//@ global forall(g, *parser.GroupExpression, wf(parser.Node(g)) ==> g != nil && g.Expr != nil && wf(g.Expr) && (isExpr(parser.Node(g)) ==> isExpr(g.Expr)))
+//@ global forall(r, *parser.ReturnStmt, wf(parser.Node(r)) ==> r != nil && (r.Value != nil ==> wf(r.Value) && isExpr(r.Value)))
 //@ global forall(b, *parser.BlockStatement, wf(parser.Node(b)) ==> b != nil && forall(i, int, 0 <= i && i < len(b.Statements) ==> b.Statements[i] != nil && wf(b.Statements[i])))
 //@ global forall(p, *parser.Program, wf(parser.Node(p)) ==> p != nil && forall(i, int, 0 <= i && i < len(p.Statements) ==> p.Statements[i] != nil && wf(p.Statements[i])))
 //@ global forall(i, *parser.IfStmt, wf(parser.Node(i)) ==> i != nil && i.IfBlock != nil && wf(parser.Node(i.IfBlock)) && (i.Else != nil ==> wf(parser.Node(i.Else))) && forall(j, int, 0 <= j && j < len(i.ElseIfBlocks) ==> i.ElseIfBlocks[j] != nil && wf(parser.Node(i.ElseIfBlocks[j]))))
-//@ global forall(c, *parser.ConditionalBlock, wf(parser.Node(c)) ==> c != nil && c.Condition != nil && wf(c.Condition) && c.Block != nil && wf(parser.Node(c.Block)))
-//@ global forall(w, *parser.WhileStmt, wf(parser.Node(w)) ==> w != nil && w.Condition != nil && wf(w.Condition) && w.Block != nil && wf(parser.Node(w.Block)))
+//@ global forall(c, *parser.ConditionalBlock, wf(parser.Node(c)) ==> c != nil && c.Condition != nil && wf(c.Condition) && isExpr(c.Condition) && c.Block != nil && wf(parser.Node(c.Block)))
+//@ global forall(w, *parser.WhileStmt, wf(parser.Node(w)) ==> w != nil && w.Condition != nil && wf(w.Condition) && isExpr(w.Condition) && w.Block != nil && wf(parser.Node(w.Block)))
 //@ global forall(f, *parser.ForStmt, wf(parser.Node(f)) ==> f != nil && f.Range != nil && wf(f.Range) && f.Block != nil && wf(parser.Node(f.Block)))
-//@ global forall(u, *parser.UnaryExpression, wf(parser.Node(u)) ==> u != nil && u.Right != nil && wf(u.Right))
-//@ global forall(b, *parser.BinaryExpression, wf(parser.Node(b)) ==> b != nil && b.Left != nil && wf(b.Left) && b.Right != nil && wf(b.Right))
-//@ global forall(x, *parser.IndexExpression, wf(parser.Node(x)) ==> x != nil && x.Left != nil && wf(x.Left) && x.Index != nil && wf(x.Index))
-//@ global forall(x, *parser.SliceExpression, wf(parser.Node(x)) ==> x != nil && x.Left != nil && wf(x.Left) && (x.Start != nil ==> wf(x.Start)) && (x.End != nil ==> wf(x.End)))
-//@ global forall(x, *parser.DotExpression, wf(parser.Node(x)) ==> x != nil && x.Left != nil && wf(x.Left))
-//@ global forall(x, *parser.TypeAssertion, wf(parser.Node(x)) ==> x != nil && x.Left != nil && wf(x.Left) && x.T != nil)
-//@ global forall(a, *parser.ArrayLiteral, wf(parser.Node(a)) ==> a != nil && forall(i, int, 0 <= i && i < len(a.Elements) ==> a.Elements[i] != nil && wf(a.Elements[i])))
-//@ global forall(c, *parser.FuncCall, wf(parser.Node(c)) ==> c != nil && forall(i, int, 0 <= i && i < len(c.Arguments) ==> c.Arguments[i] != nil && wf(c.Arguments[i])))
+//@ global forall(u, *parser.UnaryExpression, wf(parser.Node(u)) ==> u != nil && u.Right != nil && wf(u.Right) && isExpr(u.Right))
+//@ global forall(b, *parser.BinaryExpression, wf(parser.Node(b)) ==> b != nil && b.Left != nil && wf(b.Left) && isExpr(b.Left) && b.Right != nil && wf(b.Right) && isExpr(b.Right))
+//@ global forall(x, *parser.IndexExpression, wf(parser.Node(x)) ==> x != nil && x.Left != nil && wf(x.Left) && isExpr(x.Left) && x.Index != nil && wf(x.Index) && isExpr(x.Index))
+//@ global forall(x, *parser.SliceExpression, wf(parser.Node(x)) ==> x != nil && x.Left != nil && wf(x.Left) && isExpr(x.Left) && (x.Start != nil ==> wf(x.Start) && isExpr(x.Start)) && (x.End != nil ==> wf(x.End) && isExpr(x.End)))
+//@ global forall(x, *parser.DotExpression, wf(parser.Node(x)) ==> x != nil && x.Left != nil && wf(x.Left) && isExpr(x.Left))
+//@ global forall(x, *parser.TypeAssertion, wf(parser.Node(x)) ==> x != nil && x.Left != nil && wf(x.Left) && isExpr(x.Left) && x.T != nil)
+//@ global forall(a, *parser.ArrayLiteral, wf(parser.Node(a)) ==> a != nil && forall(i, int, 0 <= i && i < len(a.Elements) ==> a.Elements[i] != nil && wf(a.Elements[i]) && isExpr(a.Elements[i])))
+//@ global forall(c, *parser.FuncCall, wf(parser.Node(c)) ==> c != nil && forall(i, int, 0 <= i && i < len(c.Arguments) ==> c.Arguments[i] != nil && wf(c.Arguments[i]) && isExpr(c.Arguments[i])))
 //@ global forall(c, *parser.FuncCallStmt, wf(parser.Node(c)) ==> c != nil && c.FuncCall != nil && wf(parser.Node(c.FuncCall)))
 //@ global forall(v, *parser.Var, wf(parser.Node(v)) ==> v != nil)
 
@@ -48,6 +54,10 @@ package evaluator
 //@ func (e *Evaluator) eval(node parser.Node) (r value, err error)
 //@   props C10 C14 C02 C09
 //@   requires node != nil && wf(node)
+//@   requires storeOK()
+//@   ensures[C02 store] storeOK()
+//@   ensures[C02 expr-value] err == nil && isExpr(node) ==> okValue(r)
+//@   ensures[C02 return-value] err == nil && is(r, *returnVal) && r.(*returnVal).V != nil ==> okValue(r.(*returnVal).V)
 //@   ensures[C14 stopped] old(e.Stopped) ==> err == ErrStopped && r == nil && ncalls("(Yielder).Yield") == 0
 //@   ensures[C14 yields] !old(e.Stopped) && e.yielder != nil ==> ncalls("(Yielder).Yield") >= 1
 //@   ensures[C10 scope-restored] e.scope == old(e.scope)
@@ -104,3 +114,59 @@ package evaluator
 //@   modifies allbut evalFrame
 //@   propagates (*Evaluator).evalConditionalBlock
 //@   loop 1 invariant e.scope == old(e.scope) && (err != nil ==> val == nil) && pending() == err
+
+//@ func (e *Evaluator) evalDecl(decl *parser.Decl) (err error)
+//@   props C10 C14 C09 C02
+//@   requires wf(parser.Node(decl)) && storeOK()
+//@   let v = callres("(*Evaluator).eval", 1, 0)
+//@   let name = decl.Var.Name
+//@   ensures[C02 store] storeOK()
+//@   ensures[C10 scope-restored] e.scope == old(e.scope)
+//@   ensures[C09 C10 binds-copy] err == nil && name != "_" ==> has(e.scope.values, name) && copyRel(e.scope.values[name], v) && (!isComposite(v) ==> fresh(e.scope.values[name]))
+//@   ensures[C01 value-first] ncalls("(*Evaluator).eval") == 1 && callarg("(*Evaluator).eval", 1, 1) == decl.Value
+//@   modifies allbut evalFrame
+//@   propagates (*Evaluator).eval
+
+//@ func (e *Evaluator) evalVar(v *parser.Var) (r value, err error)
+//@   props C10 C02
+//@   requires v != nil && storeOK()
+//@   ensures[C10 lookup] v.Name != "_" && bound(e.scope, v.Name) ==> err == nil && r == lookup(e.scope, v.Name)
+//@   ensures[C10 unset] v.Name == "_" || !bound(e.scope, v.Name) ==> r == nil && wraps(err, ErrVarNotSet)
+//@   ensures[C02 expr-value] err == nil ==> okValue(r)
+//@   modifies nothing
+
+//@ func (e *Evaluator) evalReturn(ret *parser.ReturnStmt) (r value, err error)
+//@   props C10 C14 C09 C02
+//@   requires wf(parser.Node(ret)) && storeOK()
+//@   ensures[C02 store] storeOK()
+//@   ensures[C10 scope-restored] e.scope == old(e.scope)
+//@   ensures[C10 signal] err == nil ==> is(r, *returnVal) && fresh(r)
+//@   ensures[C10 value] err == nil && ret.Value != nil ==> r.(*returnVal).V == callres("(*Evaluator).eval", 1, 0) && okValue(r.(*returnVal).V)
+//@   ensures[C10 no-value] err == nil && ret.Value == nil ==> r.(*returnVal).V == nil
+//@   ensures[C02 error-no-value] err != nil ==> r == nil
+//@   modifies allbut evalFrame
+//@   propagates (*Evaluator).eval
+
+//@ func (e *Evaluator) evalAny(a *parser.Any) (r value, err error)
+//@   props C02 C09 C14 C10
+//@   requires wf(parser.Node(a)) && storeOK()
+//@   ensures[C02 store] storeOK()
+//@   ensures[C10 scope-restored] e.scope == old(e.scope)
+//@   ensures[C02 any-wraps-concrete] err == nil ==> is(r, *anyVal) && fresh(r) && r.(*anyVal).V == callres("(*Evaluator).eval", 1, 0) && !is(r.(*anyVal).V, *anyVal) && okValue(r)
+//@   ensures[C02 error-no-value] err != nil ==> r == nil
+//@   modifies allbut evalFrame
+//@   propagates (*Evaluator).eval
+//@   panics
+
+//@ func (e *Evaluator) evalExprList(terms []parser.Node) (r []value, err error)
+//@   props C01 C09 C14 C10 C02
+//@   requires forall(i, int, 0 <= i && i < len(terms) ==> terms[i] != nil && wf(terms[i]) && isExpr(terms[i])) && storeOK()
+//@   ensures[C02 store] storeOK()
+//@   ensures[C10 scope-restored] e.scope == old(e.scope)
+//@   ensures[C09 fresh-list] err == nil ==> fresh(r) && len(r) == len(terms) && off(r) == 0
+//@   ensures[C02 values] err == nil ==> forall(i, int, 0 <= i && i < len(r) ==> okValue(r[i]))
+//@   ensures[C02 error-no-value] err != nil ==> base(r) == 0
+//@   modifies allbut evalFrame
+//@   propagates (*Evaluator).eval
+//@   loop 1 invariant e.scope == old(e.scope) && pending() == nil && storeOK() && fresh(result) && len(result) == len(terms) && off(result) == 0 && -1 <= rangeindex && rangeindex < len(terms)
+//@   loop 1 invariant forall(i, int, 0 <= i && i <= rangeindex ==> okValue(result[i]))
